@@ -115,6 +115,7 @@ namespace fastscapelib
 
         std::condition_variable m_cv;
         std::mutex m_cv_m;
+        bool m_resume_requested = false;  // guarded by m_cv_m (predicate of the pause jobs)
 
         void init_pause_jobs();
     };
